@@ -169,6 +169,27 @@ theorem layout_disjoint (o : Obj) (os : OStream) (r : SaveRes) (hdr : Bytes)
     exact hP'.disj k1 k2 a b hne h1 h2 (hall k1) (hall k2) ha hb
   · have := hP'.le; omega
 
+/-- **Alignment.**  After a successful `save`, every section that was given no explicit address
+    (index ≠ 0, not SHT_NULL-typed) starts at a multiple of its alignment (`max(sh_addralign, 1)`),
+    whether it was placed as a segment member (alignment gap of `write_segment_data`) or by
+    `layout_sections_without_segments`. -/
+theorem layout_aligned (o : Obj) (os : OStream) (r : SaveRes) (hdr : Bytes)
+    (hs : save o os = .ok r) (hok : r.ok = true) (hh : o.hdr = some hdr)
+    (hn : o.secs.length < 65536)
+    (h0 : ∀ (i : Nat) (s : SecBuf), o.secs[i]? = some s → s.Occ → s.index ≠ 0)
+    (hnw : layoutNW o hdr = true)
+    (k : Nat) (s0 s : SecBuf) (h0k : o.secs[k]? = some s0) (hk : r.obj.secs[k]? = some s)
+    (ha : s0.addrSet = false) (hnn : s0.stype ≠ BitVec.ofNat 32 SHT_NULL) (hi : s0.index ≠ 0) :
+    s.offset.toNat % (max s0.addrAlign.toNat 1) = 0 := by
+  obtain ⟨hdr', res, hh', hl, -, -, hsecs⟩ := save_layout o os r hs hok
+  rw [hh] at hh'; simp only [Option.some.injEq] at hh'; subst hh'
+  have he : r.obj.secs.map hdrOf = res.secs.map hdrOf := by
+    rw [hsecs, residentForSave_hdr]; simp
+  obtain ⟨s', hs', hhs⟩ := hdrOf_getElem? he k s hk
+  have := layout_aligned_res o hdr res hl hnw hn h0 k s0 s' h0k hs' ha hnn hi
+  simp only [hdrOf, Prod.mk.injEq] at hhs
+  rw [← hhs.1]; exact this
+
 /-! ### writer domain: one segment of `layout_segments_and_their_sections`
 
 `lay`, `g`: layout state and segment (after `calc_segment_alignment`) when the segment's turn comes;
